@@ -7,6 +7,7 @@
 #include <memory>
 #include <new>
 #include <sstream>
+#include <stdexcept>
 
 namespace sim
 {
@@ -216,6 +217,7 @@ void exec_parser(const ExecOp& op, Outcome& out)
     }
     catch (const std::bad_alloc&) { simrt::end_op(); out.exc = 1; }
     catch (const std::bad_variant_access& e) { simrt::end_op(); out.exc = 5; out.exc_what = e.what(); }
+    catch (const std::runtime_error& e) { simrt::end_op(); out.exc = 6; out.exc_what = e.what(); }
     catch (const simrt::BudgetExceeded&) { simrt::end_op(); out.exc = 2; }
     catch (const std::exception& e) { simrt::end_op(); out.exc = 3; out.exc_what = e.what(); }
     catch (...) { simrt::end_op(); out.exc = 4; }
@@ -300,6 +302,7 @@ void exec_matcher(const ExecOp& op, Outcome& out)
     }
     catch (const std::bad_alloc&) { simrt::end_op(); out.exc = 1; }
     catch (const std::bad_variant_access& e) { simrt::end_op(); out.exc = 5; out.exc_what = e.what(); }
+    catch (const std::runtime_error& e) { simrt::end_op(); out.exc = 6; out.exc_what = e.what(); }
     catch (const simrt::BudgetExceeded&) { simrt::end_op(); out.exc = 2; }
     catch (const std::exception& e) { simrt::end_op(); out.exc = 3; out.exc_what = e.what(); }
     catch (...) { simrt::end_op(); out.exc = 4; }
